@@ -71,7 +71,8 @@ def chk_c01(w):
         w.acc.violated(w.ex, 'C01/connection_dispatched_at_most_once', len(pl) > 1, hist=w.hist, what='stream %d is in %s' % (sid, pl))
     nohandles = len(w.handle_idxs()) == 0
     for sid in accepted:
-        if sid in places or sid in w.dropped_no_worker: continue
+        if sid in places or sid in w.dropped_no_worker:
+            w.acc.obl['C01/accepted_connection_is_never_silently_discarded'] += 1; continue
         # the only legal way for an accepted stream to vanish: no worker handle was left when it was dispatched
         if nohandles: w.dropped_no_worker.append(sid); w.acc.wit['c01_dropped_because_no_worker_left'] += 1; continue
         w.acc.violated(w.ex, 'C01/accepted_connection_is_never_silently_discarded', True, hist=w.hist,
